@@ -691,7 +691,7 @@ func TestC08(t *testing.T) {
 
 	r.SetRule("sequences", "rapid state machine over one server (all four responders behind the real HTTP handler; in-memory backend, 1/24 real SQLite) with two provisioned devices and four session slots; 4..24 steps drawn from: start a protocol (10/20/30/60, optionally carrying some token), send the honest next message of a slot's session (12/22/32/62/64/66/68/70 built by manual peers from the CDDL), replay a recorded request, skip ahead in TO2 (66/68/70 before ProveDevice, 68/70 without 66, Done before the owner reported IsDone), send the honest next message under another token (none, other protocol's, another session's, id/MAC bit flip, truncated, 4 characters, non-base64, random), send a client error 255 (well-formed, naming an unknown or foreign previous message type, truncated, empty, or garbage). Reference model per token: protocol, phase, liveness (dead after the final message, after any error response, after a client error). Oracle after every step: journal delta contains AddVoucher/SetRVBlob/module calls/ReplaceVoucher only if the model says this is the legitimate 12/22/68/70 of a live session; a request under a missing, forged, foreign or dead token is never answered with the success type; legitimate messages succeed; no panic. Non-trivial: ≥1 illegitimate request after some progress; distinct by sequence.")
 	known = func(key string) bool { return r.HitKnown("sequences", key) }
-	ev.Rapid(r, "sequences", ev.N{Quick: 5000, Thorough: 200000}, genSeq, evalSeq)
+	ev.Rapid(r, "sequences", ev.N{Quick: 5000, Thorough: 120000}, genSeq, evalSeq)
 	ev.CheckWitness(r, "sequences", evalSeq)
 	ev.CheckWitness(r, "scripts", evalSeq)
 }
